@@ -175,9 +175,11 @@ def translate_string(repo, out):
         raise TranslateError("base64de table is empty")
     code = strip_comments(body)
     mask = need(re.search(r"if\s*\(\s*inlen\s*&\s*(0x[0-9a-fA-F]+|\d+)\s*\)\s*return\s+String\(\)", code), "fromBase64 length test `inlen & m`").group(1)
-    g = need(re.search(r"if\s*\(\s*((?:\([^()]*\)\s*)?in\s*\[\s*i\s*\])\s*>\s*('(?:\\.|[^'])')\s*\)\s*return\s+String\(\)", code), "fromBase64 guard `if (<byte> > '<c>') return String()`")
+    g = need(re.search(r"if\s*\(\s*((?:\([^()]*\)\s*)?in\s*\[\s*i\s*\])\s*(>=|>)\s*('(?:\\.|[^'])'|0[xX][0-9a-fA-F]+|\d+)\s*\)\s*return\s+String\(\)", code),
+             "fromBase64 guard `if (<byte> > <limit>) return String()`")
     guard_operand, gs = char_operand(g.group(1), "guard")
-    guard_limit = cexpr(g.group(2), {})
+    guard_rel = "≥" if g.group(2) == ">=" else ">"
+    guard_limit = cexpr(g.group(3), {})
     ix = need(re.search(r"c\s*=\s*base64de\s*\[\s*((?:\([^()]*\)\s*)?in\s*\[\s*i\s*\])\s*\]\s*;", code), "fromBase64 table read `c = base64de[<index>]`")
     index_operand, is_ = char_operand(ix.group(1), "table index")
     invm = need(re.search(r"if\s*\(\s*c\s*==\s*(\d+)\s*\)", code), "fromBase64 invalid marker `if (c == N)`")
@@ -189,9 +191,8 @@ def translate_string(repo, out):
     out.append("/-! src/String.cpp : String::fromBase64 -/\n")
     out.append(f"/-- `base64de[]` ({len(vals)} entries) -/\ndef base64de : List Nat :=\n  {vals}\n")
     out.append(f"/-- `if (inlen & m) return String();` -/\ndef base64LenMask : Nat := {cexpr(mask, {})}\n")
-    out.append(f"/-- operand of the guard `if (<operand> > '<c>') return String();` for the input byte `b` ({gs} char) -/\n"
-               f"def base64GuardOperand (b : Nat) : Int := {guard_operand}\n")
-    out.append(f"def base64GuardLimit : Int := {guard_limit}\n")
+    out.append(f"/-- the guard `if (<operand> {g.group(2)} <limit>) return String();` for the input byte `b` (operand read as {gs} char) -/\n"
+               f"def base64GuardRejects (b : Nat) : Bool := decide ({guard_operand} {guard_rel} {guard_limit})\n")
     out.append(f"/-- index expression of `c = base64de[<index>]` for the input byte `b` ({is_} char) -/\n"
                f"def base64Index (b : Nat) : Int := {index_operand}\n")
     out.append(f"/-- `if (c == N)` : marker of a symbol outside the alphabet -/\ndef base64Invalid : Nat := {inv}\n")
